@@ -317,6 +317,26 @@ def eval_C12(case):
                          jl(ns3.get(k, [])), jl(fresh[k])))
     if _element_params(b) != pexp:
         viol.append(("element parameters changed by stepping", str(_element_params(b))[:300], str(pexp)[:300]))
+    # a simulation loop that re-uses its buffers: the same array objects, updated in place between two
+    # steps, must give what a fresh network gives from those values (no state hidden in the elements)
+    try:
+        vals_other = {k: {n: other[k][n] for n in d} for k, d in vals.items()}
+        b4 = build_from_recipe(case["recipe"])
+        init4 = to_init(b4, vals, "1d")
+        step(b4, init4, fa)
+        for el, d in init4.items():
+            for n, arr in d.items():
+                arr[...] = np.array(vals_other[b4.key[el]][n], dtype=float)
+        got4 = step(b4, init4, fa)
+        b5 = build_from_recipe(case["recipe"])
+        want4 = step(b5, to_init(b5, vals_other, "1d"), fa)
+        evals += 3
+        for k in want4:
+            if k not in got4 or not same(got4[k], want4[k]):
+                viol.append((f"stepping again after the supplied arrays were updated in place: next {k[1]} of {k[0]} differs from a fresh network stepped from the same values",
+                             jl(got4.get(k, [])), jl(want4[k])))
+    except Exception as e:  # noqa: BLE001
+        viol.append((f"re-stepping with buffers updated in place raised {type(e).__name__}: {e}", short_tb(), "no exception"))
     # symbols supplied as initial conditions
     sym = case.get("sym")
     if sym:
